@@ -340,7 +340,7 @@ mutual
           | _ => []
         let status := (v.field 2).asInt.toNat
         let reason := (v.field 3).asInt.toNat
-        let reasonItems : List Item := if status ≠ 0 ∨ reason ≠ 0 then [.enum T.resultReason reason] else []
+        let reasonItems : List Item := if status = 1 ∨ reason ≠ 0 then [.enum T.resultReason reason] else []
         let msgItems : List Item := match v.field 4 with
           | .text s => if s.isEmpty then [] else [.text T.resultMessage s]
           | _ => []
